@@ -18,6 +18,7 @@ func drecover(fn, j, p int) {
 
 func helper(in uint64, b uint) {
 	if in&(1<<b) != 0 {
+		println("bodypanic")
 		panic("helper")
 	}
 }
@@ -78,11 +79,15 @@ class FnGen:
             self.emit(ind, 'println("reg", %d, %d, %s)' % (fn, j, p))
             ln = self.emit(ind, "defer drecover(%d, %d, %s)" % (fn, j, p))
             v = "arg"
+            self.behaviour = getattr(self, "behaviour", {})
+            self.behaviour[j] = "DRecover"
         else:
             p = str(60 + j)
             self.emit(ind, 'println("reg", %d, %d, %s)' % (fn, j, p))
             ln = self.emit(ind, "defer dpanic(%d, %d, %s)" % (fn, j, p))
             v = "arg"
+            self.behaviour = getattr(self, "behaviour", {})
+            self.behaviour[j] = "DPanic"
         self.defers[j] = {"line": ln, "variant": v}
 
     def block(self, ind, depth, loopvar, n):
@@ -110,6 +115,7 @@ class FnGen:
                     self.defer_stmt(ind, loopvar)
                 elif q < 0.64:
                     self.emit(ind, "if in&(1<<%d) != 0 {" % self.bit())
+                    self.emit(ind + 1, 'println("bodypanic")')
                     self.emit(ind + 1, 'panic("p")')
                     self.emit(ind, "}")
                 elif q < 0.76:
